@@ -378,6 +378,14 @@ pub mod model;
 pub mod sync;
 pub mod thread;
 
+/// Verification hooks (cargo feature `verif`).
+#[cfg(feature = "verif")]
+pub mod verif {
+    pub use crate::rt::verif::{
+        set_iteration_hook, set_schedule_hook, PathDriver, ScheduleEvent,
+    };
+}
+
 #[doc(inline)]
 pub use crate::model::model;
 
